@@ -84,4 +84,17 @@ func vFSWrites() []string {
 	return out
 }
 
+// vFSList: the names in the directory, sorted, one per line
+func vFSList(rel string) string {
+	es, _ := os.ReadDir(vFSPath(rel))
+	out := ""
+	for i, e := range es {
+		if i > 0 {
+			out += "\n"
+		}
+		out += e.Name()
+	}
+	return out
+}
+
 func vParseResult(rel string, f *ast.File, err error) {}
